@@ -217,6 +217,149 @@ def inductive(chk):
                                       "obligations": done}
 
 
+def _gzip_to_size(raw, size, mtime_field):
+    """a gzip stream of exactly `size` bytes holding `raw` (padded with a header comment), or None"""
+    import struct, zlib
+    for level in range(9, -1, -1):
+        co = zlib.compressobj(level, zlib.DEFLATED, -15)
+        body = co.compress(raw) + co.flush()
+        tail = struct.pack("<II", zlib.crc32(raw) & 0xffffffff, len(raw) & 0xffffffff)
+        plain = 10 + len(body) + 8
+        if plain == size:
+            return b"\x1f\x8b\x08\x00" + mtime_field + b"\x00\xff" + body + tail
+        if plain < size:
+            pad = size - plain          # FCOMMENT: pad - 1 characters and a NUL
+            return b"\x1f\x8b\x08\x10" + mtime_field + b"\x00\xff" + b"x" * (pad - 1) + b"\x00" + body + tail
+    return None
+
+
+def other_data(chk):
+    """Store.tla's initial state <<"OtherHash", "Old">> -- a directory completely written by this version of the tool for OTHER
+    shipped data -- realised for real instead of by a forged meta.json: a scratch copy of the repository is built (debug: the
+    embedded assets are then read from its db/ folder at run time), a data directory is built with it, then one asset is
+    regenerated with one value changed -- same name, same size, same modification time (packaging that normalises timestamps) --
+    and the tool is started on the old directory: at `ready` it must answer as on a fresh directory (AnswersAsFresh), which
+    differs from what the old index answers.  Binds the abstraction "meta = Current iff the recorded hash is that of the data
+    this build ships" to config.rs::hash_assets."""
+    import gzip, re, shutil, subprocess, tempfile, factlib
+    facts = factlib.shipped("c15-facts")
+    # (a fixed place per copy of this machinery: in a debug build the folder of the assets is compiled in, and cargo's
+    # cache of the build is keyed by it)
+    scratch = os.path.join(tempfile.gettempdir(), "anything-otherdata-" + __import__("hashlib").md5(vlib.ROOT.encode()).hexdigest()[:8])
+    shutil.rmtree(scratch, ignore_errors=True)
+    os.makedirs(scratch)
+    try:
+        files = subprocess.run(["git", "-C", vlib.REPO, "ls-files", "-z"], stdout=subprocess.PIPE, check=True).stdout.split(b"\0")
+        for f in files:
+            f = f.decode()
+            if not f or not os.path.isfile(os.path.join(vlib.REPO, f)):
+                continue
+            d = os.path.join(scratch, "src", f)
+            os.makedirs(os.path.dirname(d), exist_ok=True)
+            shutil.copy(os.path.join(vlib.REPO, f), d)          # (new modification times: the crate is compiled again, for this folder)
+        src = os.path.join(scratch, "src")
+        env = dict(os.environ, CARGO_NET_OFFLINE="true", CARGO_TARGET_DIR=os.path.join(vlib.HARNESS, "target", "otherdata"))
+        t0 = __import__("time").time()
+        pr = subprocess.run(["cargo", "build", "--offline", "--bin", "any"], cwd=src, env=env, stdout=subprocess.PIPE, stderr=subprocess.STDOUT, text=True)
+        if pr.returncode != 0:
+            vlib.log(pr.stdout[-3000:])
+            raise ToolError("the scratch copy of the repository does not build")
+        vlib.log("[build] scratch copy (debug, assets read at run time) %.1fs" % (__import__("time").time() - t0))
+        # (the binary is copied out: the next build in the shared target directory would replace it)
+        any_bin = os.path.join(scratch, "any")
+        shutil.copy2(os.path.join(env["CARGO_TARGET_DIR"], "debug", "any"), any_bin)
+
+        def answers(home, phrases):
+            out = []
+            e = {k: v for k, v in os.environ.items() if not k.startswith("ANYTHING_VERIF")}
+            e.update(XDG_DATA_HOME=home, HOME=home, NO_COLOR="1")
+            e.pop("RUST_LOG", None)
+            for ph in phrases:
+                r = subprocess.run([any_bin, "--exact", ph], env=e, stdout=subprocess.PIPE, stderr=subprocess.PIPE, text=True, timeout=600)
+                out.append(r.stdout if r.returncode == 0 else "exit %d: %s" % (r.returncode, r.stderr[-300:]))
+            return out
+        done = []
+        for asset in sorted(os.listdir(os.path.join(src, "db"))):
+            path = os.path.join(src, "db", asset)
+            original = open(path, "rb").read()
+            st = os.stat(path)
+            try:
+                raw = gzip.decompress(original)
+            except Exception:
+                continue
+            others = [" ".join(f["tokens"]) for f in facts if f["file"] == asset and f["tokens"] and all(factlib.simple_word(t) for t in f["tokens"])][:8]
+
+            def tokens_before(pos):
+                """the words of the constant whose value stands at pos (CBOR: `tokens` precedes `value` in a record)"""
+                k = raw.rfind(b"ftokens", 0, pos)
+                if k < 0 or not (0x80 <= raw[k + 7] <= 0x97):
+                    return None
+                n, k, out = raw[k + 7] - 0x80, k + 8, []
+                for _ in range(n):
+                    if 0x60 <= raw[k] <= 0x77:
+                        ln, k = raw[k] - 0x60, k + 1
+                    elif raw[k] == 0x78:
+                        ln, k = raw[k + 1], k + 2
+                    else:
+                        return None
+                    out.append(raw[k:k + ln].decode("utf-8", "replace"))
+                    k += ln
+                return out
+            cands = []
+            for m in re.finditer(rb"evalue\x82\x82\x01\x81\x1a(....)", raw, re.S):
+                toks = tokens_before(m.start())
+                if toks and all(factlib.simple_word(t) for t in toks):
+                    cands.append((m, " ".join(toks)))
+            if not cands:
+                continue
+            regenerated, how, phrases = None, "", None
+            for m, phrase in cands[:8]:
+                for delta in (1, 2, 3, 5, 7, 11):
+                    alt = bytearray(raw)
+                    alt[m.end(1) - 1] = (alt[m.end(1) - 1] + delta) % 256
+                    g = _gzip_to_size(bytes(alt), len(original), original[4:8])
+                    if g and g != original:
+                        regenerated, how, phrases = g, "same name, same size, same modification time", [phrase] + [x for x in others if x != phrase]
+                        break
+                if regenerated:
+                    break
+            if not regenerated:
+                m, phrase = cands[0]
+                alt = bytearray(raw)
+                alt[m.end(1) - 1] = (alt[m.end(1) - 1] + 1) % 256
+                regenerated, how, phrases = gzip.compress(bytes(alt)), "same name, same modification time", [phrase] + [x for x in others if x != phrase]
+            # a data directory completely built for the data as shipped
+            home = os.path.join(scratch, "home-" + asset)
+            old = answers(home, phrases)
+            with open(path, "wb") as f:
+                f.write(regenerated)
+            os.utime(path, ns=(st.st_atime_ns, st.st_mtime_ns))
+            fresh = answers(os.path.join(scratch, "fresh-" + asset), phrases)
+            if fresh == old:
+                raise ToolError("other data: the regenerated %s changes none of the answers asked for: %r -> %r" % (asset, list(zip(phrases, old))[:3], fresh[:3]))
+            for start in (1, 2):
+                got = answers(home, phrases)
+                chk.evals(len(phrases))
+                chk.nontrivial(["other-data", asset, start])
+                if got != fresh:
+                    k = [i for i in range(len(phrases)) if got[i] != fresh[i]][0]
+                    chk.violation("other data %s, start %d" % (asset, start),
+                                  {"kind": "other-data", "asset": asset, "regenerated": how, "start": start, "phrase": phrases[k], "answer": got[k], "fresh_directory_answers": fresh[k],
+                                   "old_index_answers": old[k],
+                                   "what": "a data directory written by this version for other shipped data (%s) does not recover to the shipped data: the tool answers from the old index" % how})
+                    break
+            done.append({"asset": asset, "regenerated": how, "phrases": len(phrases), "answers_changed": sum(1 for a, b in zip(old, fresh) if a != b)})
+            # the asset as shipped again, for the next one
+            with open(path, "wb") as f:
+                f.write(original)
+            os.utime(path, ns=(st.st_atime_ns, st.st_mtime_ns))
+        if not done:
+            raise ToolError("other data: no asset could be regenerated")
+        chk.cov["other_data_directories"] = done
+    finally:
+        shutil.rmtree(scratch, ignore_errors=True)
+
+
 def emit(chk, p):
     w = vlib.workdir("c15-emit")
     cfg = os.path.join(w, "emit.cfg")
@@ -269,6 +412,7 @@ def run(chk):
     vlib.build_harness("release")
     model(chk, p)
     inductive(chk)
+    other_data(chk)
     vecs = emit(chk, p)
     total = len(vecs)
     if total > p["cap"]:
@@ -317,6 +461,9 @@ def run(chk):
 
 def replay(chk, case):
     vlib.build_harness("release")
+    if case.get("kind") == "other-data":
+        other_data(chk)
+        return
     vecs = [{"hist": case["hist"]}]
     info, results, events = run_schedules(chk, vecs, 3 if any(h["n"] == 3 for h in case["hist"]) else 2)
     judge(chk, results)
